@@ -127,6 +127,21 @@ def run (s : State) : List Step → Option State
   | [] => some s
   | st :: rest => (step s st).bind (fun s' => run s' rest)
 
+/-- How the application ends the life of the guard (`InitResult`, lib.rs): an explicit
+`shutdown(timeout)`, or any drop of the value — on the init thread or another one, at the end of a
+scope, or while the owning thread is unwinding from a panic. -/
+inductive GuardEnd
+  | shutdownCall (otherThread : Bool)
+  | drop (otherThread : Bool) (unwinding : Bool)
+deriving DecidableEq, Repr
+
+/-- lib.rs: `shutdown` calls `shutdown_impl`; `impl Drop for InitResult` calls `shutdown_impl`
+unconditionally (it does not look at `std::thread::panicking()` nor at the current thread).
+`shutdown_impl` = store the flag, then `close_channels`, then join the writers with a deadline. -/
+def shutdownSteps : GuardEnd → List Step
+  | .shutdownCall _ => [.setFlag, .close]
+  | .drop _ _ => [.setFlag, .close]
+
 /-- projection of a message list on one emitting thread. -/
 def ofThread (t : Nat) (ms : List Msg) : List Msg := ms.filter (fun m => m.thread == t)
 
